@@ -118,6 +118,9 @@ def body(H, case):
     dt_init = H.real("dt_init", lo=0.5, hi=1.0)
     dts = {"T": [H.real(f"dtT{i}", lo=0.5, hi=1.0) for i in range(N + 2)], "S": [H.real(f"dt{i}", lo=0.5, hi=1.0) for i in range(N + 2)]}
     mus = [[H.real(f"mu{i}_{p}") for p in range(P)] for i in range(N + 2)]
+    thetas = [[H.real(f"theta{i}_{p}") for p in range(P)] for i in range(N + 2)]
+    screen = P > 0 or k == 1  # the record of screening iterations is kept in these configurations
+    its = [H.real(f"iters{i}", lo=0.0, hi=50.0) for i in range(N + 2)]
     opts = SolverOptions(solve_time=T, skip_time=Ts, dt_init=dt_init, save_every=k, progress_interval=0)
     st = dict(total=0, stage="T" if case.skip else "S", calls={"T": 0, "S": 0}, log=[])
 
@@ -136,12 +139,16 @@ def body(H, case):
         running_state.append("dt", used)
         if P:
             running_state.append("mu", H.array(mus[i]) if H.mode == "sym" else np.array(mus[i]))
-            running_state.append("theta", H.array(mus[i]) if H.mode == "sym" else np.array(mus[i]))
+            running_state.append("theta", H.array(thetas[i]) if H.mode == "sym" else np.array(thetas[i]))
+        if screen:
+            running_state.append("screening_iterations", its[i])
         return (used, v + 1)  # v is a 1-element integer array
 
     names = {"dt": 1}
     if P:
         names.update(mu=P, theta=P)
+    if screen:
+        names["screening_iterations"] = 1
     logger = NullLogger()
     with R.DataHandler(output_file=None, logger=logger) as dh:
         runner = R.Runner(function=update, options=opts, data_handler=dh, initial_values=[np.array([0])], names=["v"],
@@ -195,6 +202,22 @@ def body(H, case):
                     for i in range(nS):
                         for p in range(P):
                             H.prove_eq(f"mu record step {i} probe {p}", K.at(mu, p, i), mus[i][p])
+                th = dyn.theta
+                H.prove("phase records have one column per step", tuple(np.shape(th.data if hasattr(th, "data") else th)) == (P, nS))
+                if tuple(np.shape(th.data if hasattr(th, "data") else th)) == (P, nS):
+                    for i in range(nS):
+                        for p in range(P):
+                            H.prove_eq(f"theta record step {i} probe {p}", K.at(th, p, i), thetas[i][p])
+            else:
+                H.prove("no probe records without probes", dyn.mu is None and dyn.theta is None)
+            if screen:
+                si = dyn.screening_iterations
+                H.prove(f"screening-iteration records: exactly one per step ({nS})", si is not None and len(K.elems(si)) == nS)
+                if si is not None and len(K.elems(si)) == nS:
+                    for i in range(nS):
+                        H.prove_eq(f"screening-iteration record {i} = iterations of step {i}", K.elems(si)[i], its[i])
+            else:
+                H.prove("no screening-iteration records when none were kept", dyn.screening_iterations is None)
         # times reported by the loaded solution are the frame times
         from types import SimpleNamespace
 
